@@ -46,6 +46,7 @@ class FnSpec:
         self.twin = None
         self.twin_subst = []
         self.drop_body = False
+        self.split = []
 
 
 class FileSpec:
@@ -106,6 +107,8 @@ def parse_vspec(text, origin="<vspec>"):
                 cur_fn.twin_subst.append((a.strip(), b.strip()))
             elif d == "@drop-body":
                 cur_fn.drop_body = True
+            elif d == "@split-at":
+                cur_fn.split.append(arg.strip()[1:-1])
             elif d == "@#":
                 pass
             else:
@@ -507,7 +510,27 @@ def annotate_file(src, fspec, relfile):
         for fs in twins:
             f2 = _find_fn(fns2, fs.path, relfile)
             if fs.twin is not None:
-                twin_texts.append(make_twin(out, toks2, f2, fs))
+                tw = make_twin(out, toks2, f2, fs)
+                if fs.split:
+                    # case split: one variant per marked branch; in variant k every OTHER marked branch starts
+                    # with assume(false) (it is verified in its own variant), so each Verus query covers
+                    # the common code + one branch. Unmarked code is verified in every variant.
+                    name = "twin_" + "_".join(f2.container + [f2.name])
+                    poss = []
+                    for rx in fs.split:
+                        ms = list(re.finditer(rx, tw))
+                        if len(ms) != 1:
+                            raise AnchorLost("%s: `%s`: branch marker /%s/ matched %d times" % (relfile, fs.path, rx, len(ms)))
+                        poss.append(ms[0].end())
+                    for k in range(len(poss)):
+                        v = tw
+                        for j in sorted(range(len(poss)), key=lambda j: -poss[j]):
+                            if j != k:
+                                v = v[:poss[j]] + " assume(false); /*case-split: verified in variant %d*/ " % (j + 1) + v[poss[j]:]
+                        v = v.replace("fn " + name + "<", "fn " + name + "_case%d<" % (k + 1), 1)
+                        twin_texts.append(v)
+                else:
+                    twin_texts.append(tw)
             if fs.drop_body:
                 drops.append((toks2[f2.body_open].start, toks2[f2.body_close].end))
         for a, b in sorted(drops, reverse=True):
@@ -602,7 +625,7 @@ def make_twin(text, toks, f, fs):
     else:
         raise AnchorLost("twin of %s: unsupported receiver %r" % (fs.path, recv))
     params = r + (", " + rest if rest.strip() else "")
-    tail = sub_tokens(f.params_close + 1, f.body_close)
+    tail = text[toks[f.params_close].end:toks[f.params_close + 1].start] + sub_tokens(f.params_close + 1, f.body_close)
     unsafe = "unsafe " if any(toks[q].text == "unsafe" for q in range(f.item_start, f.fn_tok)) else ""
     # keep the item's attributes (loop_isolation, ...) except external_body
     attrs = []
